@@ -9,8 +9,13 @@ the response side of each stream is a small application that writes a known
 byte pattern in tape-chosen chunks (directly, through a push producer or through
 a pull producer) at tape-chosen moments; the client sends WINDOW_UPDATE
 (stream / connection), SETTINGS (INITIAL_WINDOW_SIZE down to 0, MAX_FRAME_SIZE),
-PRIORITY and RST_STREAM at tape-chosen moments; both directions are segmented
-by the tape; the server's transport applies back-pressure.
+PRIORITY at tape-chosen moments; both directions are segmented by the tape; the
+server's transport applies back-pressure.  Streams also GO AWAY while the others
+are in flight (more often while the transport holds the send loop paused): the
+client resets one (RST_STREAM, always delivered to the server in a segment of
+its own, see D below) or its application aborts it (abortConnection of the
+request's channel).  Nothing is claimed for the removed stream; every other
+stream still owes its complete body, resumption and bounded liveness.
 
 Oracles
  * referee: the h2 client raises (FlowControlError, FrameTooLargeError, ...) when
@@ -40,6 +45,8 @@ docs/C29_candidate_fix.patch makes the check hold):
  D  server-raised:app:StreamIDTooLowError, server-raised:send-loop:StreamClosedError, server-raised:dataReceived:StreamClosedError
                                                  RST_STREAM in the same segment as earlier frames of the stream: h2 has closed (or
                                                  forgotten) the stream before Twisted handles the earlier events
+                                                 (outside the statement, DESIGN.md 11.4: the scenario never lets a RST_STREAM share a
+                                                 dataReceived call with other frames)
  E  server-raised:dataReceived:RuntimeError      connection-level WINDOW_UPDATE resumes a producer that finishes its request:
                                                  self.streams changes size while _handleWindowUpdate iterates over it
 """
@@ -66,8 +73,10 @@ ID = "C29"
 
 
 def _map_resets(choice):
-    # no RST_STREAM at all: even a "late" reset can share a segment with a WINDOW_UPDATE (family D)
-    return "none"
+    # "late": the client resets streams whose response headers it has seen; "any": any stream it has requested.
+    # Either way the RST_STREAM frame reaches the server in a segment of its own (Harness.reset), never behind
+    # other frames in one dataReceived call (family D, no verdict).
+    return choice
 
 ENGINE = "net"
 LEVEL = "exploration"
@@ -92,7 +101,11 @@ RULE = ("run = 1..8 GET streams against one H2Connection (initial INITIAL_WINDOW
         "tape-chosen chunks (direct writes / push producer, optionally producing inside resumeProducing / pull producer; part of it possibly "
         "inside process()); 10..160 tape-chosen events among: network move (with cut), send-loop tick (with time passing), new request, "
         "application write/finish, WINDOW_UPDATE (stream or connection, 1..200000), SETTINGS (INITIAL_WINDOW_SIZE 0..300000 and/or "
-        "MAX_FRAME_SIZE 16384..1000000, one un-ACKed at a time), PRIORITY (weight), RST_STREAM, quiescence check with the resumption oracle; "
+        "MAX_FRAME_SIZE 16384..1000000, one un-ACKed at a time), PRIORITY (weight), quiescence check with the resumption oracle, and stream "
+        "removal: client RST_STREAM (knob: never / streams whose response headers arrived / any requested stream; earlier client bytes are "
+        "delivered first and the frame then reaches the server alone) or the application aborting its stream (knob, 30% of runs), both "
+        "six times likelier while the server's transport has its producer paused, so that the send loop is parked behind the transport "
+        "with a stream in hand; removed streams are exempt from every clause, all the others are not; "
         "then every window is opened by WINDOW_UPDATE and the rest must drain within a round budget. Knobs drawn per run switch off, "
         "in a fraction of runs, the preconditions of the defects found (SETTINGS lowering / raising the window, early or any RST_STREAM, "
         "producers that produce inside resumeProducing, the resumption oracle) so that every clause is also exercised on full-length runs. "
@@ -106,6 +119,11 @@ ASSUMPTIONS = [
     "applications stop writing when notifyFinish reports the stream lost",
     "SETTINGS_MAX_FRAME_SIZE cannot go below 16384 (RFC 7540 6.5.2), so 'tiny' values are only explored for INITIAL_WINDOW_SIZE",
     "at most one un-ACKed SETTINGS frame of the client is in flight (the h2 client cannot attribute ACKs otherwise and would be a wrong referee)",
+    "a client RST_STREAM never shares a dataReceived call with other frames (the statement quantifies over WINDOW_UPDATE and SETTINGS; on the "
+    "unchanged tree a reset coalesced with earlier frames lets h2 exceptions escape, DESIGN.md 11.4); h2's automatic RST_STREAM replies to "
+    "frames on a stream the client has already reset concern a stream the server has forgotten and are sent as they come",
+    "an application that aborted its stream (unregisterProducer, then abortConnection on the request's channel) does not touch the request again; "
+    "the server may send exactly one RST_STREAM on such a stream and on no other",
     "a frame that the server sends on a stream after it has processed the peer's RST_STREAM for it (buffered HEADERS flushed late) gets no verdict: "
     "the statement is silent about it (counted in probe frame_after_rst_received)",
     "server-raised: an exception escaping from H2Connection.dataReceived, from its send loop or from Request.write/finish is a violation, because on a "
@@ -258,7 +276,13 @@ class Ledger:
             elif typ == T_RST:
                 s = self.st.get(sid)
                 code = struct.unpack(">I", p)[0]
-                sim.check("server-reset-stream", False, "RST_STREAM", "server sent RST_STREAM(%d) on stream %d (known=%s)" % (code, sid, s is not None))
+                app = self.h.app_by_sid.get(sid)
+                # only a stream whose application aborted it may be reset by the server, and only once
+                sim.check("server-reset-stream", s is not None and app is not None and app.aborted and not s["rst_out"], "RST_STREAM",
+                          "server sent RST_STREAM(%d) on stream %d (known=%s, aborted by its application=%s)"
+                          % (code, sid, s is not None, bool(app and app.aborted)))
+                sim.check("frame-after-close", not s["ended"], "RST-after-END_STREAM", "RST_STREAM on stream %d after END_STREAM" % sid)
+                s["rst_out"] = True
             elif typ == T_GOAWAY:
                 code = struct.unpack(">I", p[4:8])[0]
                 sim.check("server-goaway", False, "GOAWAY", "server sent GOAWAY error=%d %r" % (code, p[8:60]))
@@ -285,7 +309,12 @@ class App:
         self.nwrites = 0
         self.requested = False
         self.client_reset = False
+        self.aborted = False
         self.producer = None
+
+    def removed(self):
+        """The stream was taken away (peer's RST_STREAM / aborted by the application): nothing is owed for it."""
+        return self.client_reset or self.aborted
 
     # what the harness may do next for this stream
     def can_act(self):
@@ -326,6 +355,17 @@ class App:
             if self.registered:
                 self.request.unregisterProducer()
             self.request.finish()
+
+    def abort(self):
+        """The application gives up on its response: ITransport.abortConnection of its channel (RST_STREAM)."""
+        h = self.h
+        self.aborted = True
+        self.dead = True
+        h.sim.event("app-abort", self.k)
+        with h.sim.guard("server-raised", "app"):
+            if self.registered:
+                self.request.unregisterProducer()
+            self.request.channel.abortConnection()
 
     def act(self, big=False):
         """One application step (harness-initiated)."""
@@ -531,11 +571,13 @@ class Harness:
                "settings_shrink": sim.draw_bool(0.7, "settings_shrink"),   # SETTINGS may lower INITIAL_WINDOW_SIZE (windows can go negative)
                "settings_open": sim.draw_bool(0.7, "settings_open"),   # SETTINGS may raise INITIAL_WINDOW_SIZE
                "eager": sim.draw_bool(0.5, "eager"),                   # push producers write synchronously inside resumeProducing
-               # RST_STREAM from the client: never / only after the response headers arrived / at any time
-               # RST_STREAM is not in the property statement (it quantifies over WINDOW_UPDATE and SETTINGS).  A reset that
-               # shares a segment with the HEADERS/WINDOW_UPDATE of the same stream makes exceptions escape _http2
-               # (DESIGN.md 11.4, "family D"): no verdict is claimed, so "any" is drawn (tape layout unchanged) but mapped to "late".
+               # streams that go away while the others are in flight.  RST_STREAM from the client: never / only after the
+               # response headers arrived / at any time.  The statement quantifies over WINDOW_UPDATE and SETTINGS, so nothing
+               # is claimed about the removed stream itself; the OTHER streams still owe everything.  A reset that shares a
+               # segment (one dataReceived call) with earlier frames makes exceptions escape _http2 on the unchanged tree
+               # (DESIGN.md 11.4, "family D", no verdict): every RST_STREAM is delivered in a segment of its own.
                "resets": _map_resets(sim.draw_choice(["none", "late", "none", "any"], "resets")),
+               "aborts": sim.draw_bool(0.3, "aborts"),                # applications may abort their stream (channel.abortConnection)
                "resume_check": sim.draw_bool(0.75, "resume_check"),   # evaluate the resumption oracle at quiescent points
                "prio": sim.draw_bool(0.3, "prio"),
                "nops": sim.draw_int(10, 160, "nops")}
@@ -745,12 +787,49 @@ class Harness:
         self.peer.pending_settings += 1
         self.peer.flush()
 
+    def flush_to_server(self):
+        """Hand everything the client has written so far to the server, unsegmented.  False when the server no longer reads."""
+        link = self.link
+        for _ in range(3):
+            if link.b.out:
+                link.do("xmit", "B", None)
+            if link.flight["A"]:
+                if ("deliver", "A") not in link.enabled():
+                    return False
+                link.do("deliver", "A", None)      # ServerTap guards and logs
+        return not link.b.out and not link.flight["A"] and not link.a.disconnected
+
+    def removal_probes(self, kind):
+        sim = self.sim
+        others = [a for a in self.apps if a.requested and not a.removed() and not self.peer.cl[a.sid]["ended"]]
+        if others:
+            sim.probe("removal_with_other_streams_unfinished")
+        if self.link.a.producer_paused:
+            sim.fault(kind + "_while_transport_paused")
+            if others:
+                sim.probe("removal_transport_paused_others_unfinished")
+
     def reset(self, app):
-        self.sim.event("C>", "rst", app.sid)
-        self.sim.fault("client_rst")
+        """Client RST_STREAM, in a segment of its own: earlier client bytes are delivered first, then the one frame."""
+        sim = self.sim
+        if not self.flush_to_server():
+            return
+        if app not in self.client_open():
+            return                      # the flush let the server finish it
+        sim.event("C>", "rst", app.sid)
+        sim.fault("client_rst")
         app.client_reset = True
+        self.removal_probes("client_rst")
         self.peer.conn.reset_stream(app.sid, error_code=8)
         self.peer.flush()
+        self.flush_to_server()
+        self.after()
+
+    def abort(self, app):
+        self.sim.fault("app_abort")
+        self.removal_probes("app_abort")
+        app.abort()
+        self.after()
 
     def prioritize(self):
         sim = self.sim
@@ -852,7 +931,7 @@ class Harness:
     # --- final phase: open everything, everything must complete
     def all_done(self):
         for app in self.apps:
-            if not app.requested or app.client_reset:
+            if not app.requested or app.removed():
                 continue
             c = self.peer.cl[app.sid]
             if not c["ended"]:
@@ -866,7 +945,7 @@ class Harness:
         # open every window by WINDOW_UPDATE (connection first), by exactly what is missing plus slack
         remaining = 0
         for app in self.apps:
-            if app.requested and not app.client_reset:
+            if app.requested and not app.removed():
                 s = led.st.get(app.sid)
                 sent = s["sent"] if s else 0
                 remaining += len(app.body) - sent
@@ -880,7 +959,7 @@ class Harness:
         sim.event("drain")
         frames = 0
         for app in self.apps:
-            if app.requested and not app.client_reset:
+            if app.requested and not app.removed():
                 left = len(app.body) - app.pos
                 frames += app.nwrites + (left + app.maxchunk - 1) // max(1, app.maxchunk) + len(app.body) // 16384 + 4
         budget = 200 + 8 * frames
@@ -888,7 +967,7 @@ class Harness:
         while not self.all_done():
             rounds += 1
             if rounds > budget:
-                stuck = [a.sid for a in self.apps if a.requested and not a.client_reset and not self.peer.cl[a.sid]["ended"]]
+                stuck = [a.sid for a in self.apps if a.requested and not a.removed() and not self.peer.cl[a.sid]["ended"]]
                 sim.check("liveness", False, "send-loop-" + self.loop_state(),
                           "after all windows were opened by WINDOW_UPDATE, streams %r did not complete within %d rounds "
                           "(conn window %d; %s)" % (stuck, budget, led.conn_win,
@@ -919,7 +998,7 @@ class Harness:
     def final_checks(self):
         sim = self.sim
         for app in self.apps:
-            if not app.requested or app.client_reset:
+            if not app.requested or app.removed():
                 continue
             c = self.peer.cl[app.sid]
             sim.check("request-delivered", app.request is not None, "never", "stream %d never reached the application" % app.sid)
@@ -942,6 +1021,11 @@ class Harness:
             rst_cands = []
             if cfg["resets"] != "none":
                 rst_cands = [a for a in open_ if cfg["resets"] == "any" or self.peer.cl[a.sid]["hdr"]]
+            abort_cands = []
+            if cfg["aborts"]:
+                abort_cands = [a for a in self.apps if a.request is not None and not a.dead and not a.finished]
+            # a stream that goes away matters most while the others are held up behind the transport
+            held = 6 if self.link.a.producer_paused else 1
             ops = [("net", 100 if self.link.enabled() else 0),
                    ("tick", 80 if self.clock.pending() else 0),
                    ("app", 70 if actors else 0),
@@ -951,8 +1035,9 @@ class Harness:
                    # h2 (client) cannot attribute SETTINGS ACKs when two SETTINGS frames are in flight: one at a time
                    ("settings", 12 if self.peer.pending_settings == 0 else 0),
                    ("settle", 10),
-                   ("rst", 4 if rst_cands else 0),
-                   ("prio", 6 if cfg["prio"] else 0)]
+                   ("rst", 4 * held if rst_cands else 0),
+                   ("prio", 6 if cfg["prio"] else 0),
+                   ("abort", 3 * held if abort_cands else 0)]
             op = sim.draw_weighted(ops, "op")
             if op == "net":
                 self.net_step()
@@ -979,6 +1064,8 @@ class Harness:
                 self.reset(sim.draw_choice(rst_cands, "stream"))
             elif op == "prio":
                 self.prioritize()
+            elif op == "abort":
+                self.abort(sim.draw_choice(abort_cands, "stream"))
             sim.state((op, min(len(open_), 3), min(len(actors), 3), self.ledger.conn_win <= 0,
                        sum(1 for s in self.ledger.st.values() if s["win"] <= 0 and not s["ended"]) > 0,
                        self.link.a.producer_paused))
@@ -1026,6 +1113,12 @@ MUTANTS = [
     "M13 _flushBufferedControlData: pop() instead of popleft() (buffered control frames leave in reverse order) -> caught (client-rejected:ProtocolError, HPACK) "
     "after per-stream response headers were added to the workload; survived before",
     "M18 _sendPrioritisedData: stream with empty queue never blocked -> caught (server-raised:send-loop:IndexError)",
+    "M20 _requestDone: priority.remove_stream() dropped (a finished/removed stream stays schedulable) -> caught (server-raised:send-loop:KeyError / StreamClosedError)",
+    "M22 _requestAborted: _requestDone() dropped (state of a stream the peer reset is kept, the loop sends on it) -> caught "
+    "(server-raised:send-loop:StreamClosedError, server-raised:dataReceived:StreamClosedError); needs the client-reset family",
+    "M23 abortRequest: _requestDone() dropped -> caught (server-raised:send-loop:StreamClosedError); needs the application-abort family",
+    "M21 _sendPrioritisedData keeps the stream it picked across a transport pause (seeded change r4b) -> caught once streams can go away "
+    "while the transport is paused (server-raised:send-loop:KeyError / StreamClosedError); survived before (no stream removal at all)",
     "M19 _tryToWriteControlData: always writes directly (ignores transport back-pressure for control frames) -> survived; back-pressure towards the "
     "transport is outside the statement",
 ]
